@@ -1,5 +1,5 @@
 // Black-box decoder driver (public API only).
-//  dec <kind> <flags> <mode> <seed> <memlimit> <hex>
+//  dec <kind> <flags> <mode> <seed> <memlimit> <hex>      (mode + 16: first use the coder partially, then re-initialise it on the same lzma_stream)
 //   kind: 0 stream_decoder  1 stream_decoder_mt  2 auto_decoder  3 alone_decoder  4 lzip_decoder
 //         7 index_decoder (input = an Index field; output = the decoded Index re-encoded)  10 index_encoder (of the Index in the input)
 //         5 raw LZMA2 (flags = dict size)  6 stream_buffer_decode  7 microlzma (n/a)
@@ -73,6 +73,31 @@ int main(void)
 		default: r = LZMA_PROG_ERROR;
 		}
 		if (r != LZMA_OK) { printf("%d 0 0 0 -\n", (int)r); fflush(stdout); lzma_end(&s); lzma_index_end(idx7, NULL); continue; }
+		if (mode >= 16 && kind <= 4) {
+			// re-initialisation history: decode part of the same input (small output buffers so that
+			// finished output stays queued), abandon it, initialise again on the same lzma_stream
+			mode -= 16; alarm(kind == 1 ? 25 : 120);
+			unsigned k = 1 + rnd() % 25; size_t pip = 0; uint8_t tmp[8192];
+			size_t stop = n ? rnd() % (n + 1) : 0;
+			for (unsigned c = 0; c < k && pip < stop; c++) {
+				size_t il = rnd() % 3 == 0 ? stop - pip : rnd() % 5000; if (il > stop - pip) il = stop - pip;
+				size_t ol = rnd() % 4 == 0 ? sizeof tmp : rnd() % 300;
+				uint8_t *ib = malloc(il ? il : 1); memcpy(ib, in + pip, il);
+				s.next_in = ib; s.avail_in = il; s.next_out = tmp; s.avail_out = ol;
+				lzma_ret pr = lzma_code(&s, LZMA_RUN);
+				pip += il - s.avail_in; free(ib);
+				if (pr != LZMA_OK && pr != LZMA_BUF_ERROR && pr != LZMA_NO_CHECK && pr != LZMA_UNSUPPORTED_CHECK && pr != LZMA_GET_CHECK) break;
+			}
+			if (rnd() % 3 == 0) usleep(rnd() % 400);
+			switch (kind) {
+			case 0: r = lzma_stream_decoder(&s, memlimit, flags); break;
+			case 1: r = lzma_stream_decoder_mt(&s, &mt); break;
+			case 2: r = lzma_auto_decoder(&s, memlimit, flags); break;
+			case 3: r = lzma_alone_decoder(&s, memlimit); break;
+			case 4: r = lzma_lzip_decoder(&s, memlimit, flags); break;
+			}
+			if (r != LZMA_OK) { printf("%d 0 0 0 -\n", (int)r); fflush(stdout); lzma_end(&s); alarm(0); continue; }
+		}
 		size_t ip = 0, op = 0; unsigned calls = 0; int stall = 0, finishing = 0, idle = 0;
 		alarm(kind == 1 ? 25 : 120);
 		while (1) {
